@@ -852,8 +852,10 @@ fn check_context(case: &Case, ctx: &mut Ctx) -> Option<Violation> {
         // the selectors belong to their value even when a stage holds the value back: two
         // sort keys, a constant and &index descending, must give exactly the rows in reverse
         let mut sorted = case.clone();
-        sorted.opts.push(vec!["--sort-by=\"k\"".into()]);
+        // (the first key given is the most significant one, and it is the one a chain of
+        // sorters evaluates last: when the outer sorter hands its rows over at end of input)
         sorted.opts.push(vec!["--sort-by=&index=DESC".into()]);
+        sorted.opts.push(vec!["--sort-by=\"k\"".into()]);
         let b = if use_files {
             let p2 = ctx.fresh_paths(files.len());
             let mut r = ctx.exec(sim_files_spec(&sorted, &p2, &files, &[]));
